@@ -2,9 +2,9 @@ SPECIFICATION Spec
 CONSTANTS
   Iters = {i1, i2}
   Producers = {p1}
-  MaxAdds = 3
+  MaxAdds = 2
   MaxCalls = 2
-  Budget = 3
+  Budget = 2
   SoftCap = 1
   AllowRemove = TRUE
   OneSection = TRUE
